@@ -9,12 +9,13 @@
 (d) Solution.from_* normalise the weights and apply them to the listed vertices in order.
 """
 import ast
+import copy
 import itertools
 import re
 
 from ..core.astutil import u, call_name, calls, iter_stmts, const, index_elts, ncmp, dot_args
 from ..core.index import AnalysisError
-from ..core.inline import normalise_statements
+from ..core.inline import normalise_statements, inline_single_exit_helpers
 
 O = "distance3d.gjk._gjk_original"
 # the one documented tie rule: face 1-2-3 may replace an equally good interior solution
@@ -72,7 +73,15 @@ def r_johnson(idx, rep, rule="R-JOHNSON"):
     for fname, n in (("_backup_procedure_line_segment", 2), ("_backup_procedure_face", 3), ("_backup_procedure_tetrahedron", 4)):
         f = idx.func(O + "::" + fname)
         ps = f.params()
-        simplex, dname, sol = ps[0], ps[2], ps[3]
+        # normal form of the procedure: private single-exit helpers of this module opened (`_replace_if_closer`-style acceptance helpers, a shared
+        # prefix of the face and tetrahedron procedures), literal loops unrolled, straight-line methods (Solution.from_vertex) opened
+        opened = inline_single_exit_helpers(idx, f.module, f.node, only=lambda c: getattr(c, "module", None) is f.module and c.name.startswith("_"), depth=3)
+        # parameter roles by use, not by position: the cofactor table is the parameter read as P.d[...], the running solution the parameter whose
+        # from_vertex is called (or whose .distance_squared bounds the comparisons), the simplex the parameter read as P.dot_product_table
+        txt = u(opened)
+        simplex = next((p_ for p_ in ps if re.search(r"\b%s\.dot_product_table\b" % re.escape(p_), txt)), ps[0])
+        dname = next((p_ for p_ in ps if re.search(r"\b%s\.d\[" % re.escape(p_), txt)), ps[2])
+        sol = next((p_ for p_ in ps if re.search(r"\b%s\.from_vertex\(" % re.escape(p_), txt) or re.search(r"< %s\.distance_squared\b" % re.escape(p_), txt)), ps[3])
         cands = set()
         # local names, derived from the shape of the function: `return OI[:N]`
         OI, NP = "ordered_indices", "n_simplex_points"
@@ -83,7 +92,19 @@ def r_johnson(idx, rep, rule="R-JOHNSON"):
         # vertex candidates are judged by their EFFECTS on the normal form of the body (helpers, straight-line methods such as
         # Solution.from_vertex and literal loops expanded): however the code is organised, adopting vertex v must leave
         # coords[0] = 1, search_direction = points[v], distance_squared = <v, v>, ordered_indices[0] = v, n_simplex_points = 1
-        ns = normalise_statements(idx, f.module, f.node.body)
+        ns = normalise_statements(idx, f.module, opened.body)
+        ns_keep = normalise_statements(idx, f.module, opened.body, keep=("from_line_segment", "from_face", "from_tetrahedron", "copy_from"))
+        # names that carry the simplex size in and out of opened helpers (`n__i3 = n_simplex_points` ... `n_simplex_points = n__i3`) are one variable
+        np_class = {NP}
+        grew = True
+        copies = [(s_.targets[0].id, s_.value.id) for b_ in ns for s_ in ast.walk(b_) if isinstance(s_, ast.Assign) and len(s_.targets) == 1
+                  and isinstance(s_.targets[0], ast.Name) and isinstance(s_.value, ast.Name)]
+        while grew:
+            grew = False
+            for a_, b_ in copies:
+                if (a_ in np_class) != (b_ in np_class) and ("__i" in a_ or "__i" in b_):
+                    np_class |= {a_, b_}
+                    grew = True
 
         def vertex_effects(block, v, env):
             env = dict(env)
@@ -91,11 +112,12 @@ def r_johnson(idx, rep, rule="R-JOHNSON"):
             for s_ in block:
                 if isinstance(s_, ast.Assign) and len(s_.targets) == 1:
                     t, val = s_.targets[0], s_.value
-                    if isinstance(t, ast.Name):
-                        env[t.id] = val
                     if isinstance(val, ast.Name) and val.id in env:
                         val = env[val.id]
-                    got[u(t)] = u(val).replace(" ", "")
+                    if isinstance(t, ast.Name):
+                        env[t.id] = val
+                    k_ = NP if isinstance(t, ast.Name) and t.id in np_class else u(t)
+                    got[k_] = u(val).replace(" ", "")
             want = {sol + ".barycentric_coordinates[0]": ("1.0", "1"), sol + ".search_direction": ("%s.points[%s]" % (simplex, v),),
                     sol + ".distance_squared": ("%s.dot_product_table[%s,%s]" % (simplex, v, v),), OI + "[0]": (str(v),), NP: ("1",)}
             return [k for k, vals in want.items() if got.get(k) not in vals], got
@@ -150,8 +172,8 @@ def r_johnson(idx, rep, rule="R-JOHNSON"):
                       "adopting vertex %s must set coords[0] = 1.0, search_direction = points[%s], distance_squared = <%s, %s>, ordered_indices[0] = %s and "
                       "n_simplex_points = 1; not established on this path: %s (a weight left over from a previously accepted segment / face scales the "
                       "closest points although the distance is right)" % (v, v, v, v, v, missing))
-        locs = {st.targets[0].id: st.value for st in f.node.body if isinstance(st, ast.Assign) and isinstance(st.targets[0], ast.Name)}
-        for st in f.node.body:
+        locs = {st.targets[0].id: st.value for st in ns_keep if isinstance(st, ast.Assign) and isinstance(st.targets[0], ast.Name)}
+        for st in ns_keep:
             if not isinstance(st, ast.If):
                 continue
             where = "%s:%d" % (f.module.relpath, st.lineno)
@@ -160,6 +182,24 @@ def r_johnson(idx, rep, rule="R-JOHNSON"):
             if fl:
                 c = fl[0]
                 kind = c.func.attr
+                # literal vertex lists held in a local (`vi = [0, 1]`, a helper's parameter) are read through: last store before the use, same block
+                lists = {}
+                for s_ in st.body:
+                    if isinstance(s_, ast.Assign) and len(s_.targets) == 1 and isinstance(s_.targets[0], ast.Name):
+                        v_ = lists.get(s_.value.id) if isinstance(s_.value, ast.Name) else s_.value
+                        if isinstance(v_, (ast.List, ast.Tuple)):
+                            lists[s_.targets[0].id] = v_
+                        else:
+                            lists.pop(s_.targets[0].id, None)
+                    if any(x is c for x in ast.walk(s_)):
+                        break
+                lists_at_call = dict(lists)
+
+                def rd(e, env_):
+                    return env_.get(e.id, e) if isinstance(e, ast.Name) else e
+                if len(c.args) > 1:
+                    c = copy.copy(c)
+                    c.args = [c.args[0], rd(c.args[1], lists_at_call)] + list(c.args[2:])
                 if kind == "from_tetrahedron":
                     vlist = [0, 1, 2, 3]
                     a = _d_access(c.args[1]) if len(c.args) > 1 else None
@@ -208,12 +248,29 @@ def r_johnson(idx, rep, rule="R-JOHNSON"):
                         acc_ok = first is not None and first[0] == "<" and isinstance(first[1], ast.Name) and const(first[2]) in (0, 0.0) \
                             and isinstance(dloc.get(first[1].id), ast.BinOp) and isinstance(dloc[first[1].id].op, ast.Sub) \
                             and u(dloc[first[1].id].right) == sol + ".distance_squared"
+                    # vertex lists visible at the acceptance (stores of the enclosing block up to it)
+                    lists = {}
+                    for s_ in st.body:
+                        if s_ is inner[0]:
+                            break
+                        if isinstance(s_, ast.Assign) and len(s_.targets) == 1 and isinstance(s_.targets[0], ast.Name):
+                            v_ = lists.get(s_.value.id) if isinstance(s_.value, ast.Name) else s_.value
+                            if isinstance(v_, (ast.List, ast.Tuple)):
+                                lists[s_.targets[0].id] = v_
+                            else:
+                                lists.pop(s_.targets[0].id, None)
                     for s in inner[0].body:
                         if isinstance(s, ast.Assign) and u(s.targets[0]).startswith(OI + "["):
-                            vals = [const(e) for e in s.value.elts] if isinstance(s.value, ast.Tuple) else [const(s.value)]
+                            val = rd(s.value, lists)
+                            vals = [const(e) for e in val.elts] if isinstance(val, (ast.Tuple, ast.List)) else [const(val)]
                             oi_ok = vals == vlist
-                        if isinstance(s, ast.Assign) and u(s.targets[0]) == NP:
-                            n_ok = const(s.value) == len(vlist)
+                        if isinstance(s, ast.Assign) and isinstance(s.targets[0], ast.Name) and s.targets[0].id in np_class:
+                            val = s.value
+                            if isinstance(val, ast.Call) and call_name(val) == "len" and len(val.args) == 1:
+                                lv = rd(val.args[0], lists)
+                                n_ok = isinstance(lv, (ast.List, ast.Tuple)) and len(lv.elts) == len(vlist)
+                            else:
+                                n_ok = const(val) == len(vlist)
                 rep.check(acc_ok, rule, key + " strict acceptance", where, "candidate %s is not accepted under `solution_d.distance_squared < solution.distance_squared`" % vlist)
                 rep.check(oi_ok and n_ok, rule, key + " records its vertices", where,
                           "after accepting candidate %s, ordered_indices / n_simplex_points do not record exactly that vertex list in order" % vlist)
@@ -441,7 +498,8 @@ def r_cofactorsign(idx, rep, rule="R-COFACTORSIGN"):
 
 def _table_entry(n, simplex_names):
     """<simplex>.dot_product_table[a, b] -> frozenset({a, b})"""
-    if isinstance(n, ast.Subscript) and isinstance(n.value, ast.Attribute) and n.value.attr == "dot_product_table":
+    if isinstance(n, ast.Subscript) and ((isinstance(n.value, ast.Attribute) and n.value.attr == "dot_product_table")
+                                         or (isinstance(n.value, ast.Name) and simplex_names and n.value.id in simplex_names)):
         el = index_elts(n)
         if len(el) == 2 and isinstance(const(el[0]), int) and isinstance(const(el[1]), int):
             return (const(el[0]), const(el[1]))
@@ -458,9 +516,27 @@ class _JohnsonSem:
         self.problems = []
         self.all_funcs = [f for f in idx.module(O).functions.values()]
 
-    def diff(self, e):
+    def table_aliases(self, f):
+        """locals that only ever name the table: every store is `<x>.dot_product_table`"""
+        if f is None:
+            return set()
+        out = {}
+        for n in ast.walk(f.node):
+            if isinstance(n, ast.Name) and isinstance(n.ctx, ast.Store):
+                out.setdefault(n.id, [])
+        for st in iter_stmts(f.node.body):
+            if isinstance(st, ast.Assign) and len(st.targets) == 1 and isinstance(st.targets[0], ast.Name):
+                out[st.targets[0].id].append(st.value)
+        n_stores = {}
+        for n in ast.walk(f.node):
+            if isinstance(n, ast.Name) and isinstance(n.ctx, ast.Store):
+                n_stores[n.id] = n_stores.get(n.id, 0) + 1
+        return {k for k, vs in out.items() if vs and len(vs) == n_stores.get(k) and all(isinstance(v, ast.Attribute) and v.attr == "dot_product_table" for v in vs)}
+
+    def diff(self, e, f=None):
         if isinstance(e, ast.BinOp) and isinstance(e.op, ast.Sub):
-            a, b = _table_entry(e.left, None), _table_entry(e.right, None)
+            al = self.table_aliases(f)
+            a, b = _table_entry(e.left, al), _table_entry(e.right, al)
             if a is None or b is None:
                 return None
             A, B = set(a), set(b)
@@ -525,7 +601,7 @@ class _JohnsonSem:
             return None
         if isinstance(e, ast.UnaryOp) and isinstance(e.op, ast.USub):
             return self.neg(self.meaning(e.operand, f, depth + 1))
-        d_ = self.diff(e)
+        d_ = self.diff(e, f)
         if d_ is not None:
             return d_
         a = _d_access(e)
@@ -633,7 +709,7 @@ def r_johnsonrec(idx, rep, rule="R-JOHNSONREC"):
                 continue
             X = S - {j}
             if len(S) == 2:
-                t = sem.diff(st.value)
+                t = sem.diff(st.value, m)
                 i = next(iter(X))
                 rep.check(t == ("e", i, i, j), rule, key, where,
                           "`%s`: Delta_%d({%d, %d}) must be y_%d.y_%d - y_%d.y_%d (dot_product_table[%d, %d] - dot_product_table[%d, %d]); found %s"
